@@ -183,6 +183,56 @@ def canonicalise_names(j, base):
             for n, m in sorted(mp.items()):
                 notes.append("field %s.%s is baseline %s (same type)" % (adt, n, m))
 
+    # ---- parameter order ---------------------------------------------------------------------------------------------
+    # a function whose parameters were re-ordered (and every call site with them) gets the baseline order back: the parameter names
+    # give the permutation, the types at the permuted positions must be the baseline's
+    for f in j["fns"]:
+        b = bf.get(f["key"])
+        n = f.get("arg_count") or 0
+        if not b or b.get("arg_count") != n or n < 2:
+            continue
+        cur_names = [None] * n
+        for d in f.get("debug", []):
+            i = d.get("arg")
+            if i and not d["place"]["proj"] and i - 1 < n:
+                cur_names[i - 1] = d["name"]
+        base_names = list(b.get("args") or [])
+        if None in cur_names or None in base_names or len(base_names) != n or cur_names == base_names \
+                or sorted(cur_names) != sorted(base_names) or len(set(cur_names)) != n:
+            continue
+        perm = [cur_names.index(nm) for nm in base_names]            # baseline position p holds what is now parameter perm[p]
+        cin, bin_ = list(f.get("inputs") or []), list(b.get("inputs") or [])
+        if len(cin) != n or len(bin_) != n or any(cin[perm[p_]] != bin_[p_] for p_ in range(n)):
+            continue
+        lmap = {perm[p_] + 1: p_ + 1 for p_ in range(n)}
+
+        def relocal(x):
+            if isinstance(x, dict):
+                v = x.get("local")
+                if isinstance(v, int) and not isinstance(v, bool) and v in lmap:
+                    x["local"] = lmap[v]
+                for vv in x.values():
+                    relocal(vv)
+            elif isinstance(x, list):
+                for vv in x:
+                    relocal(vv)
+        relocal(f["blocks"])
+        relocal(f.get("debug", []))
+        for d in f.get("debug", []):
+            if d.get("arg") and d["arg"] in lmap:
+                d["arg"] = lmap[d["arg"]]
+        locs = f["locals"]
+        f["locals"] = [locs[0]] + [locs[perm[p_] + 1] for p_ in range(n)] + locs[n + 1:]
+        f["inputs"] = [cin[perm[p_]] for p_ in range(n)]
+        key = f["key"]
+        for g in j["fns"]:
+            for blk in g["blocks"]:
+                t = blk["term"]
+                if t.get("k") == "call" and isinstance(t.get("func"), dict) and (t["func"].get("resolved") == key or (t["func"].get("resolved") is None and t["func"].get("def") == key)) \
+                        and len(t.get("args", [])) == n:
+                    t["args"] = [t["args"][perm[p_]] for p_ in range(n)]
+        notes.append("parameters of %s re-ordered to the baseline order (%s)" % (key, ", ".join(base_names)))
+
     # ---- parameter names ---------------------------------------------------------------------------------------------
     for f in j["fns"]:
         b = bf.get(f["key"])
